@@ -30,6 +30,9 @@ def term_source(pid: str, tier: str):
     out += [("NARY", t) for t in F.nary_terms(tier)]
     out += [("PARAM", t) for t in F.param_terms(tier)]
     out += [("NEAR", t) for t in F.near_terms(tier)]
+    out += [("MULTIVAR", t) for t in F.multivar_terms(tier)]
+    if pid in ("C01", "C02", "C08", "C17"):
+        out += [("ARITH", t) for t in F.arith_terms(tier)]
     seen = set()
     res = []
     for fam, t in out:
@@ -101,7 +104,8 @@ def reuse_outcomes(t):
       'persistent'  one object per sharing mode evaluated at every grid point in enumeration order,
                     including the points where evaluation fails part-way;
       'over-used-children'  children built and evaluated at the first grid point, then a new parent
-                    constructed over those child objects and evaluated at every other point.
+                    constructed over those child objects and evaluated at every other point;
+      'after-symbolic-derivatives'  an object whose symbolic derivatives (both routes) were taken twice.
     Yields (label, env, outcome)."""
     vs = M.variables(t)
     grid = M.grid_for(vs)
@@ -109,6 +113,16 @@ def reuse_outcomes(t):
         e = A.build(t, share)
         for env in grid:
             yield ("persistent" + ("-dag" if share else ""), env, A.outcome(lambda: e.at(A.make_point(env))))
+    if vs and M.size(t) >= 3:
+        # an object that has been differentiated symbolically (twice: forward and reverse route, which embed its
+        # sub-expression objects in the derivative expressions and simplify those) and is then evaluated again
+        e = A.build(t)
+        for _ in range(2):
+            A.construct(lambda: sm.Differential(e, compute_early=True))
+            for v in sorted(vs):
+                A.outcome(lambda: sm.Partial(e, v).as_expression())
+        for env in grid:
+            yield ("after-symbolic-derivatives", env, A.outcome(lambda: e.at(A.make_point(env))))
     kids_t = M.children(t)
     if kids_t and len(grid) > 1 and any(c[0] not in ("var", "const") for c in kids_t):
         kids = [A.build(c) for c in kids_t]
@@ -236,6 +250,62 @@ def _irrelevant_undefined(t, env) -> bool:
     return any(_irrelevant_undefined(c, env) for c in kids)
 
 
+# ---------------------------------------------------------------- extreme magnitudes
+EXTREME_VALUES = [5e-324, 2.2250738585072014e-308, 5e-309, 1e-300, 2.0 ** -1030, 1e-160, 1e160, 1e300, 8.98846567431158e307,
+                  1.7976931348623157e308, 3.0, 0.5]
+DBL_MAX = Fraction(1.7976931348623157e308)
+DBL_MIN_NORMAL = Fraction(2.2250738585072014e-308)
+
+
+def extreme_executions(st: Stats, pid: str):
+    """Single arithmetic nodes at coordinates next to the ends of the double range (subnormals, 1e+-300, the largest
+    double).  The exact result is computed in rational arithmetic; whenever it is zero or lies in the normal range the
+    implementation must return the correctly rounded double within 2 ulp — no DomainError, no inf, no nan.  (Results
+    that themselves over- or underflow are range cases and are not judged.)"""
+    x, y = M.V("x"), M.V("y")
+    ops = {
+        "Divide(x, y)": (M.Div(x, y), lambda a, b: a / b if b != 0 else None),
+        "Multiply(x, y)": (M.Mul(x, y), lambda a, b: a * b),
+        "Multiply(x, Reciprocal(y))": (None, None),
+        "Add(x, y)": (M.Add(x, y), lambda a, b: a + b),
+        "Minus(x, y)": (M.Minus(x, y), lambda a, b: a - b),
+        "Divide(x, x)": (M.Div(x, x), lambda a, b: Fraction(1) if a != 0 else None),
+        "Reciprocal(Reciprocal(x))": (None, None),
+        "NthPower(x, 2)": (M.NPow(x, 2), lambda a, b: a * a),
+        "Negation(x)": (M.Neg(x), lambda a, b: -a),
+        "Divide(Minus(x, y), y)": (M.Div(M.Minus(x, y), y), lambda a, b: (a - b) / b if b != 0 else None),
+    }
+    vals = EXTREME_VALUES + [-v for v in EXTREME_VALUES]
+    for label, (term, exact) in ops.items():
+        if term is None:
+            continue
+        for a in vals:
+            for b in vals:
+                q = exact(Fraction(a), Fraction(b))
+                st.inc("extreme_states")
+                if q is None:
+                    continue
+                if q != 0 and not (DBL_MIN_NORMAL <= abs(q) <= DBL_MAX):
+                    st.inc("extreme_skipped_range")
+                    continue
+                if label == "Divide(Minus(x, y), y)":
+                    d = Fraction(a) - Fraction(b)
+                    if d != 0 and not (DBL_MIN_NORMAL <= abs(d) <= DBL_MAX):
+                        continue
+                env = {"x": a, "y": b}
+                o = A.outcome(lambda: A.build(term).at(A.make_point(env)))
+                st.inc("transitions")
+                st.inc("extreme_executions")
+                want = float(q)
+                ok = o[0] == "val" and A.is_finite_real(o[1]) and (
+                    o[1] == want or abs(Fraction(o[1]) - q) <= abs(q) * Fraction(4, 2 ** 53))
+                if pid == "C02":
+                    ok = o[0] == "val" and A.is_finite_real(o[1])
+                if not ok:
+                    st.violation(case(term, env, "tree", "at(Point)", repr(want), o,
+                                      f"{label} at x={a!r}, y={b!r}: exact value {want!r} is inside the double range but evaluation gave {o}"))
+
+
 # ---------------------------------------------------------------- runner
 CHECKS = {}
 
@@ -259,9 +329,20 @@ def _worker_factory(fn):
             st.inc("terms")
             st.inc("terms_" + fam)
             if st.c.get("terms", 0) % 97 == 1:
-                st.sample({"family": fam, "term": M.show(t), "points": len(M.grid_for(M.variables(t)))})
+                st.sample(_sample_execution(fam, t))
         return st
     return work
+
+
+def _sample_execution(fam, t):
+    """One explored case written out: the term, one grid point, the reference verdict and what the
+    implementation returned there (for the evidence file's `samples`)."""
+    grid = M.grid_for(M.variables(t))
+    env = grid[len(grid) // 3]
+    r = RS.ref_eval(t, env)
+    o = A.outcome(lambda: A.build(t).at(A.make_point(env)))
+    return {"family": fam, "term": M.show(t) if M.size(t) < 40 else f"({M.size(t)} nodes)", "grid_points": len(grid),
+            "point": jsonable(env), "reference": repr(r), "implementation_at_point": jsonable(o[:2])}
 
 
 def run_sweep(pid, tier, seed, fn, rule, assumptions, source=None, chunk=150):
@@ -272,6 +353,8 @@ def run_sweep(pid, tier, seed, fn, rule, assumptions, source=None, chunk=150):
                           internal_error=f"reference self-test failed: {fails}")
     items = seeded_order((source or term_source)(pid, tier), seed)
     st = pmap_stats(_worker_factory(fn), items, chunk=chunk, name=f"sweep_{pid}")
+    if pid in ("C01", "C02", "C17"):
+        extreme_executions(st, pid)
     run.absorb(st)
     c = st.c
     cov = {
